@@ -195,6 +195,61 @@ def task_curve(shape, rational, dim):
     return out
 
 
+def task_curve_seq(shape, rational):
+    """Sequence arguments: one point per node, in order — ascending through every span and knot, descending, length 1."""
+    p, mults = shape
+    n = p + 1 + sum(mults)
+    nk = len(mults) + 2
+    tn = ["t%d" % z for z in range(nk - 1)]
+    pn = ["P%d_0" % i for i in range(n)]
+    wn = ["w%d" % i for i in range(n)] if rational else []
+    ctx = H.new_ctx(shape, tn + wn + pn)
+    H.positive(ctx, wn)
+    for z in range(nk - 1):
+        H.constrain_param(ctx, shape, "t%d" % z, ("open", z))
+    fn = "curves.Curve.eval"
+
+    def body(chk):
+        U, ks = H.sym_vector(ctx, shape)
+        P = [ctx.sym(x) for x in pn]
+        W = [ctx.sym(x) for x in wn] if rational else None
+        ts = [ctx.sym(x) for x in tn]
+        nodes, poss = [], []
+        for z in range(nk - 1):
+            nodes += [ks[z], ts[z]]
+            poss += [("knot", z), ("open", z)]
+        nodes.append(ks[-1])
+        poss.append(("knot", nk - 1))
+        exp = []
+        dens = []
+        for u, pos in zip(nodes, poss):
+            N = spec.cdb(U, p, H.spec_span_of(shape, pos), u)[:n]
+            if rational:
+                den = sum(w * v for w, v in zip(W, N))
+                dens.append(den.e)
+                exp.append(sum(w * v * pt for w, v, pt in zip(W, N, P)) / den)
+            else:
+                exp.append(sum(v * pt for v, pt in zip(N, P)))
+        ctx.nonzero_elems = dens      # A8
+        curve = chk.call(curves.Curve, list(U), P, W)
+        for label, order in (("ascending", list(range(len(nodes)))), ("descending", list(range(len(nodes)))[::-1])):
+            seq = chk.call(curve.eval, [nodes[i] for i in order])
+            ok = isinstance(seq, tuple) and len(seq) == len(order)
+            chk.add("seq-shape-" + label, ok, "one point per node")
+            if ok:
+                chk.identities("post-seq-" + label, [("%s[%d]=%s%d" % ((label, j) + poss[i]), seq[j], exp[i]) for j, i in enumerate(order)])
+        one = chk.call(curve.eval, [ts[0]])
+        ok1 = isinstance(one, tuple) and len(one) == 1
+        chk.add("seq-of-one", ok1, "a sequence of one node yields a tuple of one point (got %s)" % type(one).__name__)
+        if ok1:
+            chk.identities("post-seq-of-one", [("C([t0])[0]", one[0], exp[1])])
+        chk.identities("post-call-seq", [("curve((t0,))[0]", chk.call(curve, (ts[0],))[0], exp[1])] if ok1 else [])
+
+    return H.run_paths(ctx, fn, "S-sym", stag(shape, None, ",seq,%s" % ("rat" if rational else "pol")),
+                       dict(kind="c01.seq", shape=shape, rational=rational), body)
+
+
+task_curve_seq.contract_fn = "curves.Curve.eval"
 task_speval.contract_fn = "heavy.BasisFunction.speval_matrix"
 task_evalnodes.contract_fn = "heavy.eval_spline_nodes"
 task_curve.contract_fn = "curves.Curve.eval"
@@ -212,6 +267,9 @@ def tasks(tier, seed):
         ts.append((task_evalnodes, (sh, False)))
         ts.append((task_evalnodes, (sh, True)))
         ts.append((task_curve, (sh, False, 0)))
+        ts.append((task_curve_seq, (sh, False)))
+        if sh[0] <= 2:
+            ts.append((task_curve_seq, (sh, True)))
         if tier != "quick" or sh[0] <= 2:
             ts.append((task_curve, (sh, True, 0)))
             ts.append((task_curve, (sh, False, 2)))
@@ -256,13 +314,11 @@ def replay(o):
                             bad.append((j, z, y, str(tau)))
                             obs.append((str(v), str(N[y + k - j])))
         return bool(bad), "table == Cox-de Boor Taylor coefficients", dict(mismatch=bad[:5], values=obs[:5], U=U)
-    pos = tuple(w["pos"])
-    if pos[0] == "knot":
-        t = ks[pos[1]]
-    else:
-        t = pt["t"]
     rational = w.get("rational")
     W = [pt["w%d" % i] for i in range(n)] if rational else None
+    if kind != "c01.seq":
+        pos = tuple(w["pos"])
+        t = ks[pos[1]] if pos[0] == "knot" else pt["t"]
     if kind == "c01.evalnodes":
         exp = spec.basis(U, p, p, t, W)
         try:
@@ -275,6 +331,22 @@ def replay(o):
             return True, exp, "%s: %s" % (type(e).__name__, e)
         bad = len(got) != n or any(isinstance(g, float) or g != e for g, e in zip(got, exp))
         return bad, dict(U=U, t=t, W=W, values=exp), got
+    if kind == "c01.seq":
+        P = [pt["P%d_0" % i] for i in range(n)]
+        nodes = []
+        for z in range(len(ks) - 1):
+            nodes += [ks[z], pt["t%d" % z]]
+        nodes.append(ks[-1])
+        curve = curves.Curve(list(U), P, W)
+        exp = [spec.curve_value(U, p, P, u, W) for u in nodes]
+        try:
+            asc = curve.eval(list(nodes))
+            desc = curve.eval(list(nodes)[::-1])
+            one = curve.eval([nodes[1]])
+        except Exception as e:
+            return True, dict(U=U, P=P, W=W, nodes=nodes, values=exp), "%s: %s" % (type(e).__name__, e)
+        bad = list(asc) != exp or list(desc) != exp[::-1] or not isinstance(one, tuple) or len(one) != 1 or one[0] != exp[1]
+        return bad, dict(U=U, P=P, W=W, nodes=nodes, values=exp, one=[exp[1]]), dict(ascending=asc, descending=desc, one=one)
     if kind == "c01.curve":
         dim = w["dim"]
         if dim == 0:
